@@ -58,6 +58,8 @@ def jterm(t) -> dict:
         return {"k": "dg"}
     if k == "qt":
         return {"k": "qt", "s": jterm(t[1]), "p": jterm(t[2]), "o": jterm(t[3])}
+    if k == "alien":           # an object of a foreign type came out of the code under test: comparable (and never equal to a real term), not a crash
+        return {"k": "alien", "v": esc(str(t[1]))}
     raise ValueError(f"bad abstract term {t!r}")
 
 
